@@ -193,7 +193,7 @@ func c08props(c *core.Ctx) {
 			}
 			switch y := m.(type) {
 			case *ast.CallExpr:
-				if strings.HasSuffix(core.ExprStr(y.Fun), ".appendProperty") {
+				if f := core.ExprStr(y.Fun); strings.HasSuffix(f, ".appendProperty") || strings.HasSuffix(f, ".Properties.append") {
 					appended = true
 					record()
 				}
